@@ -44,6 +44,7 @@ class Verifier:
         self.contracts = contracts
         self.externals = externals
         self.fnkey = fnkey
+        self.shown = world.prog.shown(fnkey) if hasattr(world.prog, 'shown') else fnkey
         self.hyps = []      # (formula, outer_block)
         self.obls = []
         self.h0 = {}
@@ -114,9 +115,9 @@ class Verifier:
         n = self.counters.get(base, 0)
         self.counters[base] = n + 1
         if label is None:
-            name = '%s#%s[%d]' % (self.fnkey, kind, n)
+            name = '%s#%s[%d]' % (self.shown, kind, n)
         else:
-            name = '%s#%s.%s' % (self.fnkey, kind, label) + ('' if n == 0 else '[%d]' % n)
+            name = '%s#%s.%s' % (self.shown, kind, label) + ('' if n == 0 else '[%d]' % n)
         self.obls.append(Obl(name, kind, goal, reach, self.cur_block, len(self.hyps), pos, text))
 
     def hyps_for(self, ob):
